@@ -21,6 +21,9 @@ RULE = (
 ASSUMPTIONS = [
     'element UUIDs are pairwise distinct, stub UUIDs differ from every element UUID and are non-zero (the UUID is the '
     'identity of an element in both encodings)',
+    'elements may have had their "name" attribute removed (del / pop / clear / popitem) before export: Element.name is '
+    'documented to be "" then, and that is the expected name after the round trip; other post-build edits (delete and '
+    're-add, assignment over an existing key, setdefault) change order/type as dict semantics say',
     'attribute names are distinct case-insensitively and never "name" (that key is the element name); "id" is allowed '
     '(from_kv1 documents that only the elementid type is special)',
     'strings hold no lone surrogates; no NUL in graphs sent through the binary encoding (NUL-terminated on the wire) - '
@@ -83,6 +86,10 @@ def _classify(ctx, facts: dict) -> None:
                 'null_in_array', 'non_ascii', 'has_time'):
         if facts[key]:
             ctx.label(key)
+    if facts['name_removed_with_attrs']:
+        ctx.label('elem:name_removed')
+    ctx.label(*[f'name_removed:{how}' for how in sorted(facts['name_removed'])])
+    ctx.label(*[f'edit:{kind}' for kind in sorted(facts['edits'])])
     ctx.nontrivial(facts['elements'] >= 2 and (facts['shared'] or facts['cycle']) and facts['array'])
 
 
@@ -485,7 +492,9 @@ def _cells_must(encs, skip=()):
     )
 
 
-_SHAPES = ('shared', 'cycle', 'self_ref', 'empty_array', 'stub', 'stub_in_array', 'null', 'null_in_array',
+_EDITS = ('elem:name_removed', 'name_removed:del', 'name_removed:pop', 'name_removed:clear', 'name_removed:popitem',
+          'edit:readd', 'edit:retype', 'edit:setdefault')
+_SHAPES = _EDITS + ('shared', 'cycle', 'self_ref', 'empty_array', 'stub', 'stub_in_array', 'null', 'null_in_array',
            'non_ascii', 'ascii_rejected', 'mode:ascii', 'mode:format', 'mode:silent')
 
 SUBCHECKS = [
@@ -496,7 +505,7 @@ SUBCHECKS = [
         must_hit=_SHAPES + ('cull_uuid_dropped',) + _cells_must(['kv2n', 'kv2f'])),
     Sub('binary-decoder', execute_decoder, strategy=strategy_decoder, quick=1500, thorough=50000, floor=200,
         quick_shards=4,
-        must_hit=('v1', 'v2', 'v3', 'v4', 'v5', 'stub', 'stub_in_array', 'null_in_array', 'non_ascii')
+        must_hit=_EDITS + ('v1', 'v2', 'v3', 'v4', 'v5', 'stub', 'stub_in_array', 'null_in_array', 'non_ascii')
         + _cells_must(['bin5'])),
     Sub('kv1-bridge', execute_kv1, strategy=strategy_kv1, quick=1200, thorough=100000, floor=100, quick_shards=2,
         must_hit=('block', 'leaf', 'dup_leaf', 'reserved_leaf', 'mixed', 'empty_block', 'root', 'single')),
